@@ -128,7 +128,7 @@ func runC10(r *vk.Run) {
 	r.SetExtra("calibration", map[string]any{"msg_label": env0.Msg, "unwrap_keeps_label": env0.UnwrapKeeps, "cmp_false": env0.CmpFalse, "cmp_false_bool": env0.CmpFalseBool})
 	reps := r.N(10, 50)
 
-	r.Phase("identity", r.N(1500, 20000), func(c *vk.Case) {
+	r.Phase("identity", r.N(1500, 50000), func(c *vk.Case) {
 		rng := c.Rng
 		recs := genAdversarialRecs(rng, rng.Range(6, 24))
 		sortRecs(recs)
